@@ -11,7 +11,7 @@ from . import common
 ID = 'C02'
 LEVEL = 'exploration'
 N = {'quick': 40000, 'thorough': 1000000}
-RULE = ('generated elections (all rules x accepted options; equal ranks for meek/warren only), invariant checked at every recorded '
+RULE = ('generated elections (all rules x accepted options; equal ranks for meek/warren only; 3 % narrow-surplus chains in electorates of thousands), invariant checked at every recorded '
         'action; non-trivial = a surplus transfer with an inexact transfer value (Gregory), >= 2 iterations (Meek), an election '
         'followed by an exclusion/restart (QPQ); distinct = distinct case JSON')
 TECHNIQUE = 'property-based testing: exact-rational accounting invariant over every action of generated counts (ballot snapshots for QPQ)'
